@@ -267,7 +267,8 @@ func runExplore(seed uint64, out string, args map[string]string) {
 		}
 		return
 	}
-	for k := 0; k < rounds && time.Since(t0) < deadline; k++ {
+	minRounds := common.Atoi(args["--min-rounds"], 0)
+	for k := 0; k < rounds && (time.Since(t0) < deadline || k < minRounds); k++ {
 		rs := r.Next()
 		kind := kinds[int(rs>>8)%len(kinds)]
 		one(k, rs, kind)
